@@ -349,7 +349,8 @@ def dump_to_file(
         while writing the csv file.
     '''
     def _dump_to_file(source):
-        mode = None
+        # lines are written as text unless they are encoded to bytes below
+        mode = 'w'
         if encoding is not None:
             mode = 'wb'
         return source.pipe(
